@@ -64,6 +64,7 @@ type Case struct {
 	Remote  []uint64 `json:"remote"`
 	Local   []uint64 `json:"local"`
 	Hostile bool     `json:"hostile"`
+	Lazy    bool     `json:"lazy,omitempty"`
 	Events  []Event  `json:"events"`
 	Coq     string   `json:"coq"`
 }
@@ -430,6 +431,114 @@ func generate(rng *vh.Rng, hostile bool) Case {
 	return c
 }
 
+// generateLazy produces a history with back-pressure on the control port: a
+// tiny port buffer, DrainReqs sent without waiting for acknowledgements,
+// control responses picked up rarely, and traffic from outside (which a drain
+// does not pause) kept in flight across those moments. Data traffic is valid;
+// the control traffic is not protocol-respecting, so the case counts as hostile.
+func generateLazy(rng *vh.Rng) Case {
+	c := Case{Buf: 1 + rng.Intn(2), Hostile: true, Lazy: true, Bank: 4096}
+	for i := range c.W {
+		c.W[i] = 1 + rng.Intn(3)
+	}
+	c.Remote = []uint64{0, 100, 101}
+	c.Local = []uint64{200, 201}
+	r := newRunner(&c)
+	n := 80 + rng.Intn(160)
+	var pendIn, pendOut, ansIn, ansOut []outstanding
+	var forced []Event
+	nextID := uint64(1)
+	drains, acks, restarts := 0, 0, 0
+	wRspOut := 3 + rng.Intn(8)
+	wCT := 2 + rng.Intn(3)
+	for i := 0; i < n; i++ {
+		var e Event
+		if len(forced) > 0 {
+			e = forced[0]
+			forced = forced[1:]
+		} else {
+			switch rng.Pick(5, 22, 8, wRspOut, 22, 6, 16, 5, 8, 7, 2, wCT) {
+			case 0:
+				m := randReq(rng, nextID, uint64(10+rng.Intn(3)), pRI, uint64(4096+rng.Intn(2*4096)))
+				nextID++
+				e = Event{E: "d", Port: "RI", Msg: &m}
+			case 1:
+				m := randReq(rng, nextID, uint64(20+rng.Intn(3)), pDO, uint64(rng.Intn(2*4096)))
+				nextID++
+				e = Event{E: "d", Port: "DO", Msg: &m}
+			case 2:
+				e = genRsp(rng, false, &pendIn, &ansIn, "RO", 100, pRO)
+			case 3:
+				e = genRsp(rng, false, &pendOut, &ansOut, "DI", 200, pDI)
+			case 4:
+				e = Event{E: "tick"}
+			case 5:
+				e = Event{E: "r", Port: "RO"}
+			case 6:
+				e = Event{E: "r", Port: "DI"}
+			case 7:
+				e = Event{E: "r", Port: "RI"}
+			case 8:
+				e = Event{E: "r", Port: "DO"}
+			case 9:
+				m := vh.Msg{Kind: "KCtrl", Src: 30, Dst: pCT, Flags: flDrainReq}
+				e = Event{E: "d", Port: "CT", Msg: &m}
+			case 10:
+				if acks >= drains && restarts < drains {
+					m := vh.Msg{Kind: "KCtrl", Src: 30, Dst: pCT, Flags: flRestartReq}
+					e = Event{E: "d", Port: "CT", Msg: &m}
+				} else {
+					e = Event{E: "tick"}
+				}
+			case 11:
+				// free a slot of the control port and look at once at what the
+				// engine pushes into it, before any other traffic moves
+				e = Event{E: "r", Port: "CT"}
+				if rng.Intn(4) != 0 {
+					forced = append(forced, Event{E: "tick"}, Event{E: "r", Port: "CT"})
+				}
+			}
+		}
+		if e.Msg != nil {
+			e.Msg.Fix()
+		}
+		crashed := r.apply(&e)
+		c.Events = append(c.Events, e)
+		if crashed {
+			break
+		}
+		if e.E == "r" && e.Got != nil {
+			o := outstanding{id: e.Got.ID, read: e.Got.Kind == "KRead", size: int(e.Got.Size)}
+			switch e.Port {
+			case "RO":
+				pendIn = append(pendIn, o)
+			case "DI":
+				pendOut = append(pendOut, o)
+			case "CT":
+				if e.Got.Flags == flDrainRsp {
+					acks++
+				}
+			}
+		}
+		if e.E == "d" && e.Acc != nil && *e.Acc {
+			switch e.Port {
+			case "RO":
+				markAnswered(&pendIn, &ansIn, e.Msg.RspTo)
+			case "DI":
+				markAnswered(&pendOut, &ansOut, e.Msg.RspTo)
+			case "CT":
+				if e.Msg.Flags == flDrainReq {
+					drains++
+				} else {
+					restarts++
+				}
+			}
+		}
+	}
+	c.Coq = caseCoq(&c)
+	return c
+}
+
 func markAnswered(pend, ans *[]outstanding, id uint64) {
 	for k, o := range *pend {
 		if o.id == id {
@@ -776,6 +885,7 @@ func main() {
 	seed := flag.Uint64("seed", 1, "seed")
 	n := flag.Int("n", 100, "number of cases")
 	hostileEvery := flag.Int("hostile-every", 4, "every k-th RDMA history uses the hostile stream")
+	lazyEvery := flag.Int("lazy-every", 5, "every k-th RDMA history has back-pressure on the control port")
 	out := flag.String("out", "", "output JSON file")
 	rep := flag.String("replay", "", "JSON file with cases to replay")
 	flag.Parse()
@@ -794,6 +904,10 @@ func main() {
 			}
 		} else {
 			for i := 0; i < *n; i++ {
+				if *lazyEvery > 0 && i%*lazyEvery == *lazyEvery-2 {
+					cases = append(cases, generateLazy(rng.Fork()))
+					continue
+				}
 				cases = append(cases, generate(rng.Fork(), *hostileEvery > 0 && i%*hostileEvery == *hostileEvery-1))
 			}
 		}
